@@ -1,17 +1,15 @@
-\* C02 / C03: all well-formed histories of one connection, <= MaxLen messages,
-\* ids {2,3,4} + one server-range id, <= 3 incarnations per id
 CONSTANTS
   Dict <- MCDict
   Proto <- MiniProto
   Tags = {""}
-  CIds = {2, 3}
-  SIds <- SrvIds1
-  MaxLen = 6
-  MaxGen = 3
-  Gaps = {1}
+  CIds = {2}
+  SIds <- NoIds
+  MaxLen = 5
+  MaxGen = 2
+  Gaps = {1, 999999, 1000000, 1000001, 2500000}
   Cmds <- NoCmds
   Junk <- NoJunk
-  Filter0 <- NoFilter
+  Filter0 <- FilterCb
   Show = TRUE
 INIT Init
 NEXT Next
